@@ -77,6 +77,17 @@ def run(prop, replay=None):
     c = rep["counters"]
     v.notes.append("%d cases replayed: model/impl evaluator mismatches %d, folder mismatches %d; %d numeric comparisons, %d filter cases, %d engine-level runs" % (
         rep["total"], c.get("model_eval_mismatch", 0), c.get("model_fold_mismatch", 0), c.get("numcmp_cases", 0), c.get("filter_cases", 0), c.get("engine_cases", 0)))
+    if prop == "C08":
+        # edges of the numeric domain: near-equal floats, 2^53 boundary, i64::MAX, infinities (CmpEdge.tla)
+        r = run_tlc(SPEC, "CmpEdge", "CmpEdge.cfg", "edge_" + prop, workers=2, timeout=600)
+        if r.error or r.violated:
+            raise vlib.ToolError("CmpEdge: %s %s" % (r.error, r.violated))
+        ec = extract_cases(r.stdout)
+        v.add_tlc(r, "CmpEdge: %d symbolic operand pairs x operators" % len(ec))
+        epath, erep = os.path.join(w, "edge.ndjson"), os.path.join(w, "edge_report.json")
+        write_ndjson(epath, ec)
+        run_harness("vh", ["cmp-edge", epath, erep], timeout=3000)
+        v.add_report(load_report(erep))
     if not quick and prop in ("C09", "C10"):
         # depth-3 trees by simulation
         r = tlc_cfg("_gen3.cfg", cfg(3, mixed, "small", ["Emit"]), "ExprGen", "gen3_" + prop, workers=1, timeout=3000, simulate=4000, depth=7, tlc_seed=vlib.seed())
